@@ -21,7 +21,7 @@ func init() { register(c06{}) }
 func (c06) Meta() core.Meta {
 	return core.Meta{
 		ID: "C06", Level: "exploration",
-		Rule: "case i = f(seed,i): Map of JSON types with arbitrary keys/strings built from the atoms < > & \\ \" control chars U+2028 non-ASCII braces brackets and the literal six-character texts \\u003c \\u003e \\u0026 (single and double backslash); Json(), Json(true), JsonIndent(p,i[,true]) must be json.Valid, decode back (NewMapJson) to an equal Map, contain exactly as many literal < > & bytes as the Map's keys and strings (default) or none (safe); Copy returns an equal Map. Acceptance: a byte string derived from the document (identity, truncation, single-byte corruption, leading whitespace, array form with optional leading blank / trailing data, scalars, null, empty, two documents, invalid UTF-8) is given to NewMapJson and to json.Decoder: NewMapJson must fail iff the std decoder fails or its first value is neither object nor array, return that value (array under \"object\") otherwise and an empty Map on failure; with JsonUseNumber every numeric leaf is a json.Number with the source literal. Non-trivial: Map contains a special character or the byte string is not the plain document; distinct by hash(map or bytes).",
+		Rule:        "case i = f(seed,i): Map of JSON types with arbitrary keys/strings built from the atoms < > & \\ \" control chars U+2028 non-ASCII braces brackets and the literal six-character texts \\u003c \\u003e \\u0026 (single and double backslash); Json(), Json(true), JsonIndent(p,i[,true]) must be json.Valid, decode back (NewMapJson) to an equal Map, contain exactly as many literal < > & bytes as the Map's keys and strings (default) or none (safe); Copy returns an equal Map. Acceptance: a byte string derived from the document (identity, truncation, single-byte corruption, leading whitespace, array form with optional leading blank / trailing data, scalars, null, empty, two documents, invalid UTF-8) is given to NewMapJson and to json.Decoder: NewMapJson must fail iff the std decoder fails or its first value is neither object nor array, return that value (array under \"object\") otherwise and an empty Map on failure; with JsonUseNumber every numeric leaf is a json.Number with the source literal. Non-trivial: Map contains a special character or the byte string is not the plain document; distinct by hash(map or bytes).",
 		Assumptions: []string{"encoding/json is the reference (the property names it)", "invalid UTF-8 appears only in byte strings offered to NewMapJson, not in Map strings"},
 		Anchors:     []string{"Map.Json", "Map.JsonIndent", "NewMapJson", "Map.Copy"},
 		Floors:      map[string]int64{"strings:html-chars": 3000, "strings:u003c-literal": 500, "accept:std-rejects": 1000, "accept:std-accepts-object": 1000, "accept:array-form": 500, "accept:non-container": 300, "usenumber:leaves": 1000},
@@ -35,7 +35,7 @@ func (c06) Cases(tier string, race bool) int {
 	if tier == "thorough" {
 		return 800000
 	}
-	return 25000
+	return 80000
 }
 
 var c06atoms = []string{"<", ">", "&", `\`, `"`, "u003c", `<`, `\\u003c`, `>`, `&`, `\\u0026`, "a", "é", "\x01", "\n", "\t", " ", "{", "}", "[", "]", ":", ",", " ", " ", "/", "</script>", "\x7f"}
